@@ -38,3 +38,29 @@ func ZzC15PacketNTP() {
 	zzCover("forward", delta > 0)
 	zzAssertMustFail(got >= 0, "twin: offset never negative")
 }
+
+// C15 (sign of the offset, decided separately from the division identity): a
+// packet whose RTP time precedes the last sender report's (signed 32-bit
+// difference) is never dated after the report, and one that follows it is never
+// dated before.
+func ZzC15PacketNTPSign() {
+	rate := zzParam("RATE", 90000)
+	rr := &Receiver{ClockRate: rate, Period: time.Second}
+	rr.firstSenderReportReceived = true
+	sec := zzU64("ntpsec")
+	zzAssume(zzAnd(sec >= 2208988800+86400*365, sec < 1<<32))
+	rr.lastSenderReportTimeNTP = sec<<32 | uint64(0x80000000)
+	rtp0 := zzU32("rtp0")
+	rr.lastSenderReportTimeRTP = rtp0
+	d32 := zzI32("delta")
+	out, ok := rr.packetNTPUnsafe(rtp0 + uint32(d32))
+	zzAssert(ok, "absolute time available after a sender report")
+	got := int64(out.Sub(ntp.Decode(rr.lastSenderReportTimeNTP)))
+	if d32 < 0 {
+		zzAssert(got <= 0, "a packet that precedes the sender report is not dated after it")
+	} else {
+		zzAssert(got >= 0, "a packet that follows the sender report is not dated before it")
+	}
+	zzCover("backward", d32 < 0)
+	zzCover("forward", d32 > 0)
+}
